@@ -244,12 +244,10 @@ theorem temp_power_forms_return [RPow K] (u : TU K) (op : UnOp) (hop : op ≠ .s
 
 /-! ### diff / ediff1d / ptp -/
 
-/-- what a difference of two readings of a difference-kind unit must be: a difference unit whose
-    labelled reading denotes the difference; arrays of points are outside the claim -/
+/-- what `x[i+1] − x[i]` must be: a difference unit whose labelled reading denotes the difference
+    of the two readings (difference − difference, or point − point) -/
 def diffSpec (u : TU K) (xa xb : K) (r : TU K × K) : Prop :=
-  match kind u.base with
-  | .diff => kind r.1.base = .diff ∧ difK r.1 r.2 = difK u xb - difK u xa
-  | .point => True
+  kind r.1.base = .diff ∧ difK r.1 r.2 = den (kind u.base) u xb - den (kind u.base) u xa
 
 /-- the excluded region of the `diff` claim: units whose size is not that of `delta_degC` -/
 def diffGuard (u : TU K) : Bool := u.scale exactTab == (TU.bare .dC : TU K).scale exactTab
@@ -262,12 +260,14 @@ theorem temp_diff_partial (u : TU K) (xa xb : K) (r : TU K × K) (hg : diffGuard
     split at hl
     · cases hl
     · cases hl; cases h
+      rename_i hno
       simp only [diffGuard, beq_iff_eq] at hg
-      simp only [diffSpec]
-      cases hk : kind u.base
-      · trivial
-      · refine ⟨rfl, ?_⟩
-        simp only [difK_eq, ← hg]; grind
+      have hk : kind u.base = .diff := by
+        rw [hasOffset_exact] at hno
+        cases hq : kind u.base <;> simp_all
+      simp only [diffSpec, hk, den]
+      refine ⟨rfl, ?_⟩
+      simp only [difK_eq, ← hg]; grind
   · cases h
 
 /-- `np.diff`, `np.ediff1d`, `np.ptp` refuse arrays on an offset scale -/
